@@ -204,6 +204,7 @@ class Item:
         self.relpath = relpath
         self.path_text = path_text
         self.subs = []              # (count, regex, repl)
+        self.lowering_incomplete = []   # lowering rules that did not apply as declared on the current /repo text
         self.auto = ['C01']
         self.stored = []            # list of (text, is_ins, tags, kf, label)
         self.slice_anchors = None   # (start_re, end_re)
@@ -396,6 +397,7 @@ class Unit:
         """Returns list of (line_text, src_line_offset, flags)."""
         orig_lines = text.split('\n')
         rules = []
+        it.lowering_incomplete = []
         if 'R15' in it.named_rules:
             text2, n15 = split_or_arms(text)
             if n15 == 0:
@@ -489,7 +491,12 @@ class Unit:
             # A lowering rule that finds nothing to rewrite is not an error: the text is then passed on as it is
             # (Verus accepts it or reports the unsupported construct); the count is logged.
             out = new
-            rules.append('sub/%s/x%d%s' % (rx, n, '' if (count == '*' and n > 0) or (count != '*' and n == int(count)) else ' (expected %s)' % count))
+            as_expected = (count == '*' and n > 0) or (count != '*' and n == int(count))
+            if not as_expected:
+                # the construct this rule rewrites into something with a specification is no longer where it was: whatever replaced
+                # it reaches the verifier unlowered (e.g. `%` on i64 instead of i64_rem), so a failed proof of this function proves nothing
+                it.lowering_incomplete.append('sub /%s/ applied %d times, expected %s' % (rx, n, count))
+            rules.append('sub/%s/x%d%s' % (rx, n, '' if as_expected else ' (expected %s)' % count))
         it.rules = rules
         res = []
         for off, l in enumerate(out.split('\n')):
